@@ -23,7 +23,7 @@ Print Assumptions C19_inst_registry.
 (* a file that cannot be decoded / parsed is skipped with a reason (handlers of _parse_file) *)
 Definition parse_fact := func_fact ladders (s2p "core.manager:BanditManager._parse_file").
 Definition skipped_on (cls : pstr) : bool :=
-  existsb (fun t => match catching exn_supers (t_handlers t) cls with Some ASkip => true | _ => false end)
+  existsb (fun t => match catching exn_supers (t_handlers t) cls with Some (ASkip r) => negb (match r with nil => true | _ => false end) | _ => false end)
           (ff_tries parse_fact).
 Lemma C19_inst_undecodable_skipped :
   skipped_on (s2p "SyntaxError") && skipped_on (s2p "UnicodeDecodeError") && skipped_on (s2p "ValueError") = true.
